@@ -184,6 +184,16 @@ def canon_hash(x):
 
 # evidence of runs against /repo itself goes to evidence/; bin/seedrun (a deliberately broken /repo) redirects it
 EVIDENCE_DIR = os.environ.get("VERIF_EVIDENCE_DIR") or os.path.join(VERIF, "evidence")
+def relabel(df, salt=0):
+    """the same table under other row labels (default RangeIndex, non-contiguous reversed labels, or repeated labels): the library's functions take any
+    DataFrame, so what they compute must not depend on the labels; the choice is a deterministic function of the table's size and the salt"""
+    mode = (len(df) * 7 + salt) % 3
+    if mode == 0 or len(df) == 0: return df
+    df = df.copy()
+    if mode == 1: df.index = [1000 + 3 * i for i in range(len(df))][::-1]
+    else: df.index = [i // 2 for i in range(len(df))]
+    return df
+
 class Ctx:
     def __init__(self, prop, tier, seed):
         self.prop, self.tier, self.seed = prop, tier, seed
